@@ -707,15 +707,34 @@ func c12Window(c *Ctx) {
 	}
 	fs := computeFacts(add)
 	nAdd := 0
-	hasPrevIn := func(facts []Fact, want bool) bool {
-		return anyFact(facts, func(f Fact) bool {
-			ac, ok := f.V.(*ssa.Call)
-			if !ok || commonName(&ac.Call) != "(time.Time).After" || f.T != want {
-				return false
-			}
+	var isPrevTest func(v ssa.Value, depth int) bool
+	isPrevTest = func(v ssa.Value, depth int) bool {
+		ac, ok := v.(*ssa.Call)
+		if !ok {
+			return false
+		}
+		if commonName(&ac.Call) == "(time.Time).After" {
 			_, ok = loadedField(ac.Call.Args[0], lastTS)
 			return ok && isZeroStruct(ac.Call.Args[1])
-		})
+		}
+		// a predicate helper all of whose returns are that test
+		if sc := ac.Call.StaticCallee(); sc != nil && inModule(sc) && sc.Blocks != nil && depth < 2 {
+			rets := returnsOf(sc)
+			if len(rets) == 0 {
+				return false
+			}
+			for _, r := range rets {
+				rv := returnValues(r)
+				if len(rv) != 1 || !isPrevTest(strip(rv[0]), depth+1) {
+					return false
+				}
+			}
+			return true
+		}
+		return false
+	}
+	hasPrevIn := func(facts []Fact, want bool) bool {
+		return anyFact(facts, func(f Fact) bool { return f.T == want && isPrevTest(f.V, 0) })
 	}
 	allInstrs(add, func(i ssa.Instruction) {
 		cl, ok := i.(*ssa.Call)
